@@ -229,6 +229,86 @@ func (c *Check) popShape(fn *ssa.Function, fields []string, caps map[string]int6
 			c.Violated("R2", "pop-reslice "+f+" @ "+key, p.Pos(fn.Pos()), "no F = F[n:] found reason=not-established")
 			continue
 		}
+		// idiom B: n = min(len(F), CAP) (builtin, or `n := len(F); if n > CAP { n = CAP }`); for _, x := range F[:n] {…}; F = F[n:]
+		var minArgs []ssa.Value
+		if mc, ok := counter.(*ssa.Call); ok {
+			if bi, isB := mc.Call.Value.(*ssa.Builtin); isB && bi.Name() == "min" && len(mc.Call.Args) == 2 {
+				minArgs = mc.Call.Args
+			}
+		}
+		if mp, ok := counter.(*ssa.Phi); ok && len(mp.Edges) == 2 && !isRangeCounter(mp) {
+			// φ{len(F), CAP} with the constant chosen only when CAP < len(F)
+			okPhi := true
+			for k, e := range mp.Edges {
+				if kc, isC := e.(*ssa.Const); isC && kc.Value != nil {
+					pred := mp.Block().Preds[k]
+					t := pred.Instrs[len(pred.Instrs)-1]
+					capS := kc.Value.ExactString()
+					lf := "len(EthTxQueue.Get()#0." + f + ")"
+					edges := p.MatchEdges(fn, regexp.MustCompile(lit("("+capS+" < "+lf+")")+"|"+lit("("+capS+" <= "+lf+")")))
+					if tt, _ := (&PathSearch{Fn: fn, AvoidEdges: edgeSet(edges), IsTarget: func(in ssa.Instruction) bool { return in == t }}).Find(); tt != nil || len(edges) == 0 {
+						okPhi = false
+					}
+				}
+			}
+			if okPhi && incOf(mp.Edges[0]) == nil && incOf(mp.Edges[1]) == nil {
+				minArgs = mp.Edges
+			}
+		}
+		if minArgs != nil {
+			{
+				var lenOK bool
+				var capC int64 = -1
+				for _, a := range minArgs {
+					if lc, ok := a.(*ssa.Call); ok {
+						if lb, ok := lc.Call.Value.(*ssa.Builtin); ok && lb.Name() == "len" {
+							if _, ff := loadOfField(lc.Call.Args[0]); ff == f {
+								lenOK = true
+							}
+						}
+					}
+					if k, ok := a.(*ssa.Const); ok && k.Value != nil {
+						capC, _ = constant.Int64Val(constant.ToInt(k.Value))
+					}
+				}
+				if !lenOK || capC < 0 || capC > caps[f] {
+					c.Violated("R2", "pop-counter "+f+" @ "+key, p.InstrPos(reslice), fmt.Sprintf("the re-slice offset %s is not min(len(list), cap<=%d)", r.E(counter), caps[f]))
+					continue
+				}
+				nElem, bad := 0, false
+				for _, b := range fn.Blocks {
+					for _, in := range b.Instrs {
+						ia, ok := in.(*ssa.IndexAddr)
+						if !ok {
+							continue
+						}
+						if _, ff := loadOfField(ia.X); ff == f {
+							bad = true
+							c.Violated("R2", "pop-index "+f+" @ "+key, p.InstrPos(ia), "element read outside the popped prefix F[:n]")
+							continue
+						}
+						sl, ok := ia.X.(*ssa.Slice)
+						if !ok {
+							continue
+						}
+						if _, ff := loadOfField(sl.X); ff != f {
+							continue
+						}
+						nElem++
+						if sl.Low != nil || sl.High != counter || r.E(ia.Index) != "φ{(1 + @)|0}" {
+							bad = true
+							c.Violated("R2", "pop-index "+f+" @ "+key, p.InstrPos(ia), "elements are not consumed as F[:n][i] for i = 0,1,… with the n the list is re-sliced by: "+r.E(ia))
+						}
+					}
+				}
+				if nElem == 0 {
+					c.Violated("R2", "pop-index "+f+" @ "+key, p.Pos(fn.Pos()), "no element read of the list reason=not-established")
+				} else if !bad {
+					c.Held("R2", "pop-index "+f+" @ "+key, p.InstrPos(reslice), "range over F[:n] with n = min(len(F), cap) and F = F[n:] (first-in-first-out, nothing dropped or duplicated)")
+				}
+				continue
+			}
+		}
 		ph, ok := counter.(*ssa.Phi)
 		okCounter := ok && len(ph.Edges) == 2
 		if okCounter {
